@@ -1,5 +1,6 @@
 """C08 — number encodings: generators, projection and oracle."""
 from .. import common as C
+from .. import gen as G
 
 PID = "C08"
 RULE = ("systematic: all 128 one-byte and 16384 two-byte codes in each decoder interpretation, exponent x mantissa grid "
@@ -82,6 +83,16 @@ def generate(rng, tier):
     trail = ["02ff", "0501ff", "03000000ffff", "fe01"]
     for kind in ("DN", "DR", "DC", "DZ"):
         g["decode-" + kind] = ["%s %s" % (kind, d) for d in dec + trunc + trail]
+    g["truncated-in-stream"] = []
+    for _ in range(60 if tier == "quick" else 1500):
+        op = rng.choice([0x00 + rng.below(3), 0x20 + rng.below(3), 0x60, 0x80, 0xa0, 0xa1, 0x40 + rng.below(2)])
+        hi = op >> 4
+        nreps = 1 + ((op & 0x1f) if hi < 4 else (op & 0x0f))
+        nco = [2, 2, 2, 2, 2, 2, 4, 4, 4, 4, 6, 6][hi]
+        body = "".join(G.rnumber_bytes(rng) for _ in range(nreps * nco))
+        full = G.MAGIC + "00" + "c08080" + "%02x" % op + body
+        for cut in range(len(body) // 2 + 1):
+            g["truncated-in-stream"].append("DEC " + full[:len(full) - 2 * cut])
     return g
 
 
